@@ -154,6 +154,21 @@ fn check_shift(ctx: &mut Ctx, c: &Case, out: &Outcome, req: &str, prop: &str) {
 }
 
 fn for_small_cases(ctx: &mut Ctx, k_full: u32, l_full: usize, k_sub: u32, l_sub: usize, mut f: impl FnMut(&mut Ctx, Case)) {
+    // binary sequences, two items longer (repeats next to edits; totals up to 2*(l_full+2))
+    let bin = gen::all_seqs(2, l_full + 2);
+    for alg in ALGS {
+        for old in &bin {
+            for new in &bin {
+                if old.len() <= l_full && new.len() <= l_full {
+                    continue; // covered by the ternary enumeration below
+                }
+                if !ctx.take() {
+                    continue;
+                }
+                f(ctx, Case::full(alg, old, new));
+            }
+        }
+    }
     // full ranges
     let seqs = gen::all_seqs(k_full, l_full);
     for alg in ALGS {
@@ -185,11 +200,11 @@ fn for_small_cases(ctx: &mut Ctx, k_full: u32, l_full: usize, k_sub: u32, l_sub:
                         c.ns = ns;
                         c.ne = ne;
                         // offset lookup on every other case: lookup indices start at 2 / 3, or at the
-                        // very top of the index space (ranges ending at usize::MAX - 1 / - 2)
+                        // very top of the index space (lookups whose last index is usize::MAX - 1)
                         let sel = os + 2 * oe + 3 * ns + 5 * ne;
                         if sel % 2 == 1 {
                             let (oo, no) = if sel % 6 == 1 {
-                                (usize::MAX - 1 - old.len(), usize::MAX - 2 - new.len())
+                                (usize::MAX - old.len(), usize::MAX - new.len())
                             } else {
                                 (2, 3)
                             };
@@ -278,6 +293,29 @@ fn self_diff_cases(ctx: &mut Ctx, k: u32, l: usize) {
     }
 }
 
+/// a few large inputs: Myers with an edit distance above 2000 around a shared middle block, and an
+/// LCS middle section above 1024 x 1024 cells
+fn big_cases(seed: u64) -> Vec<Case> {
+    let mut rng = Rng::new(seed ^ 0xb16);
+    let mut v = vec![];
+    // unrelated heads and tails around a shared block: D ~ 2 * 1100
+    let shared: Vec<u32> = (0..150u32).map(|i| 50_000 + i).collect();
+    let mut old: Vec<u32> = (0..1100).map(|_| rng.below(40) as u32).collect();
+    let mut new: Vec<u32> = (0..1100).map(|_| 100 + rng.below(40) as u32).collect();
+    old.splice(500..500, shared.iter().copied());
+    new.splice(700..700, shared.iter().copied());
+    v.push(Case::full(Algorithm::Myers, &old, &new));
+    // two revisions of a ~1150 item sequence for LCS (few edits, but a large stripped middle)
+    let base: Vec<u32> = (0..1150u32).map(|i| i % 97 + (i / 300) * 1000).collect();
+    let mut rev = base.clone();
+    rev[3] = 777_777;
+    rev[1140] = 888_888;
+    rev.remove(600);
+    rev.insert(200, 999_999);
+    v.push(Case::full(Algorithm::Lcs, &base, &rev));
+    v
+}
+
 pub fn suite_raw(ctx: &mut Ctx) {
     let (kf, lf, ks, ls, nrand, maxsz) = match ctx.tier {
         Tier::Quick => (3, 4, 2, 3, 3000, 60),
@@ -300,6 +338,14 @@ pub fn suite_raw(ctx: &mut Ctx) {
         }
     });
     self_diff_cases(ctx, 2, if ctx.tier == Tier::Quick { 4 } else { 5 });
+    for c in big_cases(ctx.seed) {
+        if !ctx.take() {
+            continue;
+        }
+        let (req, out) = emit_case(ctx, &c);
+        check_raw(ctx, &c, &out, &req);
+        ctx.count("raw.big_cases");
+    }
 }
 
 /* ------------------------------------------------------------------------------------------ */
@@ -468,6 +514,16 @@ pub fn suite_cap(ctx: &mut Ctx) {
     random_cases(ctx, nrand, maxsz, 2, |ctx, c, _| {
         cap_one(ctx, &c);
     });
+    for c in big_cases(ctx.seed) {
+        if !ctx.take() {
+            continue;
+        }
+        let req = capture_request(&c);
+        let cap = run_capture(&c);
+        ctx.emit(&req, &cap.show());
+        check_cap(ctx, &c, &cap, &req);
+        ctx.count("cap.big_cases");
+    }
 }
 
 /* ------------------------------------------------------------------------------------------ */
@@ -651,10 +707,17 @@ pub fn suite_deadline(ctx: &mut Ctx) {
                     if let Err(e) = oracle::finish_once_last(&out.trace) {
                         ctx.violation("C07", &req, e);
                     }
-                    if let Some(at) = out.at_expiry {
+                    // a deadline that had expired before the call: every comparison is "after expiry"
+                    let at_expiry = if kx == 0 { Some(0) } else { out.at_expiry };
+                    if let Some(at) = at_expiry {
                         let after = out.cmps - at;
                         ctx.max(&format!("deadline.max_cmps_after_expiry_x1000_per_item.{}", alg_name(alg)), after * 1000 / ((old.len() + new.len()) as u64).max(1));
-                        if after > post_expiry_bound(alg, base.oe - base.os, base.ne - base.ns) {
+                        // expired at entry: the prefix/suffix scans (at most N+M+2 comparisons) still run
+                        let mut bound = post_expiry_bound(alg, base.oe - base.os, base.ne - base.ns);
+                        if kx == 0 {
+                            bound = bound.max(((base.oe - base.os) + (base.ne - base.ns) + 2) as u64);
+                        }
+                        if after > bound {
                             ctx.violation("C07", &req, format!("{} comparisons after expiry for N+M = {}", after, old.len() + new.len()));
                         }
                         ctx.nontrivial(&req);
@@ -846,8 +909,8 @@ fn check_script(ctx: &mut Ctx, stack: Stack, old: &[u32], new: &[u32], calls: &[
 /// C10: arbitrary valid scripts through the adapters
 pub fn suite_script(ctx: &mut Ctx) {
     let (l, nrand, cap) = match ctx.tier {
-        Tier::Quick => (3, 1500, 400),
-        Tier::Thorough => (4, 20000, 100000),
+        Tier::Quick => (3, 15000, 400),
+        Tier::Thorough => (4, 150000, 100000),
     };
     let seqs = gen::all_seqs(2, l);
     for old in &seqs {
@@ -872,7 +935,7 @@ pub fn suite_script(ctx: &mut Ctx) {
         }
         let mut rng = Rng::new(ctx.seed ^ 0x5c1 ^ (i as u64).wrapping_mul(0x9E3779B97F4A7C15));
         let fam = [gen::Family::HeavyRepeats, gen::Family::Periodic, gen::Family::SmallAlphabet, gen::Family::NearIdentical][i % 4];
-        let size = 2 + rng.below(24);
+        let size = 2 + rng.below(if i % 5 == 0 { 60 } else { 24 });
         let (old, new) = gen::gen_pair(&mut rng, fam, size);
         let (mut o, mut n) = (0, 0);
         let mut s = vec![];
@@ -881,7 +944,7 @@ pub fn suite_script(ctx: &mut Ctx) {
             let choice = rng.below(if can_eq { 5 } else { 2 });
             if choice >= 2 {
                 let mut l = 1;
-                while o + l < old.len() && n + l < new.len() && old[o + l] == new[n + l] && rng.chance(3, 4) {
+                while o + l < old.len() && n + l < new.len() && old[o + l] == new[n + l] && rng.chance(1, 2) {
                     l += 1;
                 }
                 s.push(Call::Equal(o, n, l));
